@@ -145,7 +145,9 @@ func (c *AuthorizeExplicitGrantHandler) PopulateTokenEndpointResponse(ctx contex
 	}
 
 	var refresh, refreshSignature string
-	if canIssueRefreshToken(ctx, c, authorizeRequest) {
+	// the grant is looked up in the stored authorization, the client's right to use the refresh_token grant in the
+	// registration that just authenticated (the stored request carries a snapshot of the client)
+	if canIssueRefreshToken(ctx, c, authorizeRequest) && requester.GetClient().GetGrantTypes().Has("refresh_token") {
 		refresh, refreshSignature, err = c.RefreshTokenStrategy.GenerateRefreshToken(ctx, requester)
 		if err != nil {
 			return errorsx.WithStack(fosite.ErrServerError.WithWrap(err).WithDebug(err.Error()))
